@@ -18,6 +18,10 @@ Oracle : metamorphic -- same set of paths relative to --outdir and byte-identica
          and the responsible axis is found by re-running A with exactly one axis taken from B (plus an identical re-run of A
          that catches run-to-run nondeterminism such as id()/ASLR leaks).
          signature = target | file kind | construct class | axis.
+Universe flavours (shares of every 10): 3 "lookup" (>= 2 roots, last root generated with --lookup-dir), 3 "siblings" (nested
+root with >= 3 sibling namespaces, added by construction), 2 "nested", 2 "any"; every universe is first parsed by pydsdl.
+Per universe: 4 targets x n perturbed pairs + 1 control pair (identical environments).  After the campaign one cheap targeted
+reduction per new signature (single-axis pair, canonical environments, one-type universe, default options).
 All tool runs are subprocesses on a thread pool; the "in-process" runs are two tool.run_inproc() calls inside one worker
 interpreter (python -m vf.props.c07 --worker) so that hash seed and clock stay under control of the harness.
 """
@@ -37,6 +41,7 @@ import shutil
 import subprocess
 import sys
 import tempfile
+import threading
 import typing
 from concurrent.futures import ThreadPoolExecutor
 
@@ -118,8 +123,10 @@ def _strategies():
     @st.composite
     def perturbed(draw, a: dict, forced: str) -> dict:
         b = copy.deepcopy(a)
+        # the forced axis (cycled by the caller so that every axis gets its share), one of clock / a location, others 1 in 3
+        second = draw(st.sampled_from(["clock", "input-location", "output-location"]))
         for ax in AXES:
-            if ax != forced and draw(st.sampled_from([False, False, True])) is False:
+            if ax not in (forced, second) and draw(st.sampled_from([False, False, True])) is False:
                 continue
             if ax == "clock":
                 cls = draw(st.sampled_from(sorted(CLOCK_DELTAS)))
@@ -140,11 +147,30 @@ def _strategies():
                 b["proc"] = "fresh" if a["proc"] == "second" else "second"
         return b
 
+    def nested_roots(u: dict) -> typing.List[int]:
+        return [i for i in range(len(u["roots"])) if has_nested_namespace(u, i)]
+
     @st.composite
-    def case(draw, n_pairs: int) -> dict:
+    def case(draw, flavour: str, n_pairs: int) -> dict:
+        """
+        flavour: "lookup"   >= 2 roots, the LAST root (nested) is generated with --lookup-dir <earlier roots>
+                 "siblings" nested root; two copies of a nested type are placed in fresh sibling namespaces (by construction)
+                 "nested"   generated root has >= 1 nested namespace
+                 "any"      whatever dsdlgen draws (incl. flat single-namespace universes)
+        """
         profile = draw(st.sampled_from(["plain", "plain", "mixed"]))
-        u = draw(dsdlgen.universe(profile=profile, max_types=6, max_roots=2, docs="some", max_fields=5, max_consts=2))
-        root = draw(st.integers(0, len(u["roots"]) - 1))
+        us = dsdlgen.universe(profile=profile, max_types=6, max_roots=2, docs="some", max_fields=5, max_consts=2)
+        if flavour == "lookup":
+            u = draw(us.filter(lambda x: len(x["roots"]) > 1 and has_nested_namespace(x, len(x["roots"]) - 1)))
+            root = len(u["roots"]) - 1
+        elif flavour in ("siblings", "nested"):
+            u = draw(us.filter(lambda x: bool(nested_roots(x))))
+            root = draw(st.sampled_from(nested_roots(u)))
+            if flavour == "siblings":
+                u = add_siblings(u, root)
+        else:
+            u = draw(us)
+            root = draw(st.integers(0, len(u["roots"]) - 1))
         off = draw(st.integers(0, len(AXES) - 1))
         targets = {}
         j = 0
@@ -158,7 +184,7 @@ def _strategies():
                 j += 1
             targets[t] = {"opts": opts, "pairs": pairs}
         ctl_t = draw(st.sampled_from(TARGETS))
-        return {"u": u, "root": root, "targets": targets, "control": {"target": ctl_t, "env": draw(env())}}
+        return {"u": u, "root": root, "flavour": flavour, "targets": targets, "control": {"target": ctl_t, "env": draw(env())}}
 
     return case
 
@@ -213,6 +239,22 @@ def generated_root(u: dict, root: int) -> dict:
 
 def has_nested_namespace(u: dict, root: int) -> bool:
     return any(len(td["ns"]) >= 2 for td in generated_root(u, root)["types"])
+
+
+def add_siblings(u: dict, root: int) -> dict:
+    """Copies the first nested type of the generated root into two fresh sibling namespaces (same body: every reference
+    it makes is to an earlier type, so dependency order and front-end validity are preserved; no fixed port-ID)."""
+    u = copy.deepcopy(u)
+    types = u["roots"][root]["types"]
+    i = next(k for k, td in enumerate(types) if len(td["ns"]) >= 2)
+    used = {c for td in types for c in td["ns"]}
+    fresh = [n for n in ("zeta", "omega", "kappa", "sigma") if n not in used][:2]
+    for n, comp in enumerate(fresh):
+        cp = copy.deepcopy(types[i])
+        cp["ns"] = cp["ns"][:-1] + [comp]
+        cp["port_id"] = None
+        types.insert(i + 1 + n, cp)
+    return u
 
 
 def has_sibling_namespaces(u: dict, root: int) -> bool:
@@ -306,6 +348,7 @@ def ensure_inputs(u: dict, lay: Layout, e: dict) -> None:
 
 
 RUNS = {"fresh": 0, "second": 0}
+_RUNS_LOCK = threading.Lock()
 
 
 def tree_fingerprint() -> str:
@@ -322,7 +365,8 @@ def tree_fingerprint() -> str:
 
 def run_once(u: dict, root: int, target: str, opts: dict, e: dict, lay: Layout) -> dict:
     """One tool run in environment e. Returns rc, stderr tail, {relpath: bytes}, and the literal command for the report."""
-    RUNS[e["proc"]] += 1
+    with _RUNS_LOCK:
+        RUNS[e["proc"]] += 1
     ensure_inputs(u, lay, e)
     out = lay.outdir(e)
     if out.exists():
@@ -762,15 +806,15 @@ def check_pair(u: dict, root: int, target: str, opts: dict, a: dict, b: dict, sc
 
 
 # ================================================================================================================ driver
-def draw_cases(ctx: core.Ctx, n: int, n_pairs: int) -> typing.List[dict]:
-    """All cases are drawn up front by Hypothesis (seeded); execution is parallel afterwards."""
+def draw_cases(ctx: core.Ctx, flavour: str, n: int, n_pairs: int, seed_offset: int) -> typing.List[dict]:
+    """Cases are drawn up front by Hypothesis (seeded, generate phase only); execution is parallel afterwards."""
     import hypothesis
     from hypothesis import given
 
     cases: typing.List[dict] = []
-    strat = _strategies()(n_pairs)
+    strat = _strategies()(flavour, n_pairs)
 
-    @hypothesis.seed(ctx.seed * 1000003 + 7)
+    @hypothesis.seed(ctx.seed * 1000003 + seed_offset)
     @core.hsettings(n)
     @given(strat)
     def collect(c):
@@ -778,7 +822,12 @@ def draw_cases(ctx: core.Ctx, n: int, n_pairs: int) -> typing.List[dict]:
             cases.append(c)
 
     collect()
+    if len(cases) < n:
+        raise core.HarnessError(f"Hypothesis produced only {len(cases)} of {n} '{flavour}' cases")
     return cases
+
+
+FLAVOURS = [("lookup", 3), ("siblings", 3), ("nested", 2), ("any", 2)]  # shares of every 10 universes
 
 
 MINI_U = {
@@ -861,9 +910,17 @@ def run(ctx: core.Ctx):
     ]
     n_univ, n_pairs = (10, 3) if ctx.quick else (80, 8)
     fp0 = tree_fingerprint()
-    cases = draw_cases(ctx, n_univ, n_pairs)
-    if len(cases) < n_univ:
-        raise core.HarnessError(f"Hypothesis produced only {len(cases)} of {n_univ} cases")
+    cases: typing.List[dict] = []
+    for k, (flavour, share) in enumerate(FLAVOURS):
+        cases += draw_cases(ctx, flavour, n_univ * share // 10, n_pairs, seed_offset=7 + k)
+    from .. import dsdlgen
+
+    with tempfile.TemporaryDirectory(prefix="vf-c07-fe-") as td:  # generator soundness: the real front end accepts every universe
+        for i, c in enumerate(cases):
+            try:
+                dsdlgen.read(c["u"], dsdlgen.materialise(c["u"], pathlib.Path(td) / f"u{i}")[0].parent)
+            except Exception as ex:
+                raise core.HarnessError(f"generated universe #{i} ({c['flavour']}) rejected by pydsdl: {type(ex).__name__}: {ex}")
     scratch_root = pathlib.Path(tempfile.mkdtemp(prefix="vf-c07-"))
     jobs = []  # (meta, args)
     for ci, c in enumerate(cases):
@@ -880,8 +937,10 @@ def run(ctx: core.Ctx):
 
         with ThreadPoolExecutor(max_workers=JOBS) as ex:
             results = list(ex.map(work, list(enumerate(jobs))))
-
-        from .. import dsdlgen
+        ctx.extra["tool_pairs"] = len(jobs)
+        ctx.extra["tool_runs_main_phase"] = dict(RUNS)
+        if tree_fingerprint() != fp0:  # e.g. a commit landed in the tree between run A and its re-run: nothing observed is trustworthy
+            raise core.HarnessError(f"the tree under test ({core.REPO}) was modified while the check was running: inconclusive, re-run")
 
         rejected = 0
         first_rep: typing.Dict[str, dict] = {}
@@ -889,7 +948,7 @@ def run(ctx: core.Ctx):
             axes = axes_of(j["a"], j["b"])
             nested = has_nested_namespace(j["u"], j["root"])
             rep = {k: j[k] for k in ("u", "root", "target", "opts", "a", "b")}
-            classes = ["target." + j["target"], "pair.control" if j["control"] else f"pair.axes={len(axes)}"]
+            classes = ["target." + j["target"], "pair.control" if j["control"] else f"pair.axes={len(axes)}", "flavour." + cases[j["ci"]]["flavour"]]
             classes += ["axis." + ax for ax in axes]
             cc = clock_class(j["a"], j["b"])
             if cc:
@@ -930,10 +989,6 @@ def run(ctx: core.Ctx):
             for sig, what in r["findings"]:
                 ctx.fail(sig, what, rep)
                 first_rep.setdefault(sig, rep)
-        ctx.extra["tool_pairs"] = len(jobs)
-        ctx.extra["tool_runs_main_phase"] = dict(RUNS)
-        if tree_fingerprint() != fp0:
-            raise core.HarnessError(f"the tree under test ({core.REPO}) was modified while the check was running: inconclusive, re-run")
         ctx.extra["rejected_by_tool"] = rejected
         if rejected > len(jobs) // 5:
             bad = next(r for r in results if r["rejected"])
@@ -944,25 +999,29 @@ def run(ctx: core.Ctx):
             todo = [s for s in ctx.failures if not ctx.is_known(s)][:16]
             with ThreadPoolExecutor(max_workers=JOBS) as ex:
                 mins = list(ex.map(lambda s: minimise(s, first_rep[s], scratch_root), todo))
-            for s, m in zip(todo, mins):
-                if m is not None:
-                    ctx.set_min_replay(s, m[1], m[0])
             ctx.extra["tool_runs_total"] = dict(RUNS)
-            if tree_fingerprint() != fp0:
-                raise core.HarnessError(f"the tree under test ({core.REPO}) was modified while the check was running: inconclusive, re-run")
+            if tree_fingerprint() == fp0:  # otherwise keep the unreduced reproductions (found before the tree changed)
+                for s, m in zip(todo, mins):
+                    if m is not None:
+                        ctx.set_min_replay(s, m[1], m[0])
     finally:
         shutil.rmtree(scratch_root, ignore_errors=True)
 
-    per_target = 20 if ctx.quick else 300
+    q = ctx.quick
     for t in TARGETS:
-        ctx.require("target." + t, per_target)
+        ctx.require("target." + t, 25 if q else 500)
     for ax in AXES:
-        ctx.require("axis." + ax, 25 if ctx.quick else 400)
+        ctx.require("axis." + ax, 25 if q else 500)
     for cc in CLOCK_DELTAS:
-        ctx.require("clock.delta." + cc, 4 if ctx.quick else 60)
-    ctx.require("hashseed.random", 10 if ctx.quick else 150)
-    ctx.require("universe.nested", 40 if ctx.quick else 700)
-    ctx.require("universe.lookup_dir_used", 4 if ctx.quick else 100)
+        ctx.require("clock.delta." + cc, 4 if q else 80)
+    ctx.require("hashseed.random", 10 if q else 200)
+    ctx.require("universe.nested", 90 if q else 1800)
+    ctx.require("universe.lookup_dir_used", 30 if q else 600)
+    ctx.require("universe.sibling_namespaces", 30 if q else 600)
+    ctx.require("universe.sibling_namespaces+axis.hashseed", 5 if q else 100)
+    ctx.require("universe.kind.service", 10 if q else 200)
+    ctx.require("universe.kind.union", 10 if q else 200)
+    ctx.require("opt.<defaults>", 4 if q else 80)
     ctx.require("pair.control", n_univ)
 
 
